@@ -10,10 +10,9 @@ import traceback
 import numpy as np
 from numpy import array
 
-ALL_OPS = ["s", "v", "u", "Ls", "L", "Lu", "Q", "add", "sub", "mul", "div", "addc", "subc", "mulc", "divc", "offc",
+ALL_OPS = ["s", "v", "u", "w", "Ls", "L", "Lu", "Lc", "M", "Mc", "Q", "add", "sub", "mul", "div", "addc", "subc", "mulc", "divc", "offc",
            "adda", "suba", "mula", "diva", "offa", "neg", "restr", "rrestr", "lrestr", "lincomp", "concat", "normalize",
            "taylor1", "taylor2", "cvx", "aggmax", "aggsq", "aggpos"]
-LEAVES = {"s", "v", "u", "Ls", "L", "Lu", "Q"}
 
 
 def dy(a):
@@ -81,10 +80,16 @@ class Replayer:
         self.lins = {str(k): ([_seq(r) for r in _seq(v[0])], _seq(v[1])) for k, v in leaf_table["lins"].items()}
         q = leaf_table["quad"]
         self.quad = ([_seq(r) for r in _seq(q[0])], _seq(q[1]), q[2])
+        self.sparse = {str(k) for k in leaf_table["sparse"]}
         self.n_diag = 0
 
     # ------------------------------------------------------------------ building (transport only)
     def build(self, t) -> Node:
+        kids = [self.build(a) for a in t[1]]
+        return Node(t, self.construct(t, kids), kids)
+
+    def construct(self, t, kids):
+        """The gemseo object of the root operator of t over the (already built) operand objects."""
         from gemseo.algos.aggregation.aggregation_func import (aggregate_max, aggregate_positive_sum_square,
                                                                 aggregate_sum_square)
         from gemseo.algos.design_space import DesignSpace
@@ -100,7 +105,6 @@ class Replayer:
                                                                     compute_quadratic_approximation)
 
         op, args, p = t
-        kids = [self.build(a) for a in args]
         k = [c.obj for c in kids]
         pf = [float(c) for c in p]
         if op in self.polys:
@@ -108,7 +112,11 @@ class Replayer:
             f = MDOFunction(pol.value, op, jac=pol.jac, dim=len(pol.comps))
         elif op in self.lins:
             a, b = self.lins[op]
-            if len(a) == 1:
+            if op in self.sparse:
+                from scipy.sparse import csr_array
+
+                f = MDOLinearFunction(csr_array(array(a, dtype=float)), op, value_at_zero=array(b, dtype=float))
+            elif len(a) == 1:
                 f = MDOLinearFunction(array(a[0], dtype=float), op, value_at_zero=float(b[0]))
             else:
                 f = MDOLinearFunction(array(a, dtype=float), op, value_at_zero=array(b, dtype=float))
@@ -147,12 +155,12 @@ class Replayer:
         elif op == "neg":
             f = -k[0]
         elif op == "restr":
-            n_child = self.n_inputs(args[0])
-            f = FunctionRestriction(array([p[0]]), array([pf[1]]), n_child, k[0], name="restriction")
+            f = FunctionRestriction(array(p[1:1 + p[0]]), array(pf[1 + p[0]:]), self.n_inputs(args[0]), k[0],
+                                    name="restriction")
         elif op == "rrestr":
-            f = RestrictedFunction(k[0], array([p[0]]), array([pf[1]]))
+            f = RestrictedFunction(k[0], array(p[1:1 + p[0]]), array(pf[1 + p[0]:]))
         elif op == "lrestr":
-            f = k[0].restrict(array([p[0]]), array([pf[1]]))
+            f = k[0].restrict(array(p[1:1 + p[0]]), array(pf[1 + p[0]:]))
         elif op == "lincomp":
             f = LinearCompositeFunction(k[0], array(pf[2:]).reshape(p[0], p[1]))
         elif op == "concat":
@@ -178,14 +186,18 @@ class Replayer:
             f = agg(k[0], indices=idx, scale=pf[0])
         else:  # pragma: no cover
             raise KeyError(op)
-        return Node(t, f, kids)
+        return f
 
     def n_inputs(self, t):
         op, args, p = t
-        if op in LEAVES:
-            return 2
+        if op in self.polys:
+            return len(self.polys[op][0][0][1])
+        if op in self.lins:
+            return len(self.lins[op][0][0])
+        if op == "Q":
+            return len(self.quad[1])
         if op in ("restr", "rrestr", "lrestr"):
-            return self.n_inputs(args[0]) - 1
+            return self.n_inputs(args[0]) - p[0]
         if op == "lincomp":
             return p[1]
         return self.n_inputs(args[0])
@@ -259,12 +271,17 @@ class Replayer:
     def check_case(self, tree, pt, ev, ej, obs):
         sub, top = self.entries(pt, ev, ej, obs)
         try:
-            root = self.build(tree)
+            # operands first, observed BEFORE the operation is built over them (building may touch them)
+            kids = [self.build(a) for a in tree[1]]
+            root = Node(tree, None, kids)
             before = [self.observe(self.node_at(root, e[0]), e[1]) for e in sub]
+            root.obj = self.construct(tree, kids)
             got = self.observe(root, top[1])
             again = np.atleast_1d(np.asarray(root.obj.evaluate(top[1].copy()), dtype=float)).ravel()
             after = [self.observe(self.node_at(root, e[0]), e[1]) for e in sub]
-            ok = (self.matches(got, top) and self.same(again, top[2])
+            # Rebuild action of the specification: the same operation built again over the same operands
+            rebuilt = self.observe(Node(tree, self.construct(tree, kids), kids), top[1]) if kids else got
+            ok = (self.matches(got, top) and self.same(again, top[2]) and self.matches(rebuilt, top)
                   and all(self.matches(g, e) for g, e in zip(before, sub))
                   and all(self.matches(g, e) for g, e in zip(after, sub)))
         except Exception:  # noqa: BLE001
@@ -324,28 +341,45 @@ class Replayer:
                         problems.append(exc("Jacobian", ex))
                     if problems:
                         break
-                # (b) the subtrees below, observed before / after the evaluation of this one (fresh graph)
+                # (b) the subtrees below, observed before the operation is built over them, after it is built,
+                #     after each of its evaluations; then the operation built a second time (fresh graph)
                 if below and not inner_blamed:
                     try:
-                        node2 = self.build(t)
+                        kids2 = [self.build(a) for a in t[1]]
+                        node2 = Node(t, None, kids2)
                         rel = [(e[0][len(path):],) + e[1:] for e in below]
+
+                        def changed_after(when, at):
+                            after = [self.observe(self.node_at(node2, e[0]), e[1]) for e in rel]
+                            bad_ones = [(g, e) for g, e in zip(after, rel) if not self.matches(g, e)]
+                            if not bad_ones:
+                                return False
+                            g, e = bad_ones[0]
+                            problems.append(("NoOperandMutation", {"operand_depth": len(e[0]), "when": when},
+                                             {"operand": show(subtree(path + e[0])), "at": e[1].tolist(),
+                                              "after_evaluation_at": at,
+                                              "operand_value_after": g[0].tolist(), "spec": e[2].tolist(),
+                                              "operand_jacobian_after": g[1].tolist(), "spec_jacobian": e[3].tolist()}))
+                            return True
+
                         before = [self.observe(self.node_at(node2, e[0]), e[1]) for e in rel]
                         if all(self.matches(g, e) for g, e in zip(before, rel)):
+                            node2.obj = self.construct(t, kids2)
+                            mutated = changed_after("construction", None)
                             for own_e in own:
+                                if mutated:
+                                    break
                                 node2.obj.evaluate(own_e[1].copy())
                                 node2.obj.jac(own_e[1].copy())
                                 node2.obj.evaluate(own_e[1].copy())
-                                after = [self.observe(self.node_at(node2, e[0]), e[1]) for e in rel]
-                                changed = [(g, e) for g, e in zip(after, rel) if not self.matches(g, e)]
-                                if changed:
-                                    g, e = changed[0]
-                                    problems.append(("NoOperandMutation", {"operand_depth": len(e[0])},
-                                                     {"operand": show(subtree(path + e[0])), "at": e[1].tolist(),
-                                                      "after_evaluation_at": own_e[1].tolist(),
-                                                      "operand_value_after": g[0].tolist(), "spec": e[2].tolist(),
-                                                      "operand_jacobian_after": g[1].tolist(),
-                                                      "spec_jacobian": e[3].tolist()}))
-                                    break
+                                mutated = changed_after("evaluation", own_e[1].tolist())
+                            if not mutated and not problems:
+                                again = self.observe(Node(t, self.construct(t, kids2), kids2), own[0][1])
+                                if not self.matches(again, own[0]):
+                                    problems.append(("Rebuild", {}, {"at": own[0][1].tolist(), "impl": again[0].tolist(),
+                                                                     "spec": own[0][2].tolist(),
+                                                                     "impl_jacobian": again[1].tolist(),
+                                                                     "spec_jacobian": own[0][3].tolist()}))
                     except Exception:  # noqa: BLE001
                         pass  # reported by (a) or by the diagnosis of the subtree that raises
             if problems and not inner_blamed:  # innermost only
